@@ -108,4 +108,23 @@ theorem C09_leaf_concrete (prog : List Ins) (e : Avm.Env) (blockIns : List Ins) 
         (EvalRun.truthy (valOf (p, 0)) = false → Fee.gamma (feeAssertedMax c { value := n }).2 fee)) :=
   FeeLeaf.fee_leaf prog e blockIns pc0 st k hrun valOf hout hargs p p1 p2 c n hp hp1 hp2 hopp hop1 hop2 hargsp
 
+/-- THE LEAF PREMISE, DISCHARGED FOR DIRECT FEE CHECKS.  The hypothesis "the leaf matcher is sound for the actual truth of the
+    leaf" of `C01_asserted_of_run` / `C01_block_constraint_of_run` holds, for the key Fee, at every comparison of a straight
+    run whose stack-AST operands are a `txn Fee` and an `int n`: the tool's `_get_asserted_fee` returns the operator table's
+    entry (`feeSingle_direct`) and the approved fee is on the side the AVM's pushed value selects (`C09_leaf_concrete`). -/
+theorem C09_leaf_premise_direct (prog : List Ins) (e : Avm.Env) (blockIns : List Ins) (pc0 : Nat) (st : Nat → Avm.State)
+    (k : Nat) (hrun : OperandValues.BlockRun prog e blockIns pc0 k st) (valOf : Nat × Nat → Avm.Val)
+    (hout : ∀ j, j < k → ∀ i, i < (blockIns[j]!).op.pushes →
+      (st (j + 1)).stack[(st j).stack.length - (blockIns[j]!).op.pops + i]? = some (valOf (j, i)))
+    (hargs : ∀ j, j < k → List.Forall₂ (OperandValues.Agree valOf) (OperandValues.argsAt blockIns j)
+      ((st j).stack.drop ((st j).stack.length - (blockIns[j]!).op.pops)))
+    (ic : Option (List Nat)) (p p1 p2 : Nat) (c : Cmp) (n : Nat) (hp : p < k) (hp1 : p1 < k) (hp2 : p2 < k)
+    (hopp : (blockIns[p]!).op = .cmp c) (hop1 : (blockIns[p1]!).op = .txn "Fee") (hop2 : (blockIns[p2]!).op = .int (.lit n))
+    (hargsp : OperandValues.argsAt blockIns p = [some (p1, 0), some (p2, 0)]) :
+    ∃ fee, e.field e.self "Fee" = some (.int fee) ∧
+      (fee ≤ MAX_UINT64 →
+        (EvalRun.truthy (valOf (p, 0)) = true → Fee.gamma (feeSingle ic (constructAst blockIns) ⟨"Fee", .self⟩ p).1 fee) ∧
+        (EvalRun.truthy (valOf (p, 0)) = false → Fee.gamma (feeSingle ic (constructAst blockIns) ⟨"Fee", .self⟩ p).2 fee)) :=
+  FeeLeaf.fee_leaf_premise prog e blockIns pc0 st k hrun valOf hout hargs ic p p1 p2 c n hp hp1 hp2 hopp hop1 hop2 hargsp
+
 end Tealer.C09
